@@ -8,7 +8,7 @@ output and format) and what the process left behind (exit status, stdout, stderr
 '-o').  The outcome classifier (vmon.refmodels.c18_outcome + judge() below) puts each execution into
 
     SUCCESS    status 0, the strict reader of the selected format accepts stdout / the '-o' file
-    HELP       status 0, the parser left through a help / version action, text on stdout, no formula line
+    HELP       status 0, the parser left through a help / version action, text on stdout
     CLI-ERROR  status != 0, no line of a formula on stdout or in the '-o' file, a message on stderr whose
                every non-empty line starts with the comment marker (DESIGN 4.7: the tool's default marker
                while the command line is being parsed, the marker of the selected format afterwards)
@@ -21,6 +21,7 @@ import hashlib
 import os
 import random
 import shutil
+import signal
 import sys
 import tempfile
 
@@ -40,9 +41,11 @@ RULE = ("command = (tool, argument vector, stdin kind).  grammar: the sub-comman
         "garbage standard input; the full table (graph slot or input option) x (file kind: valid of every format, missing, "
         "directory, empty, binary, truncated, other format, other graph type, unknown extension) x (by extension | with "
         "format keyword).  Sizes are capped syntactically (chains only on tiny bases, graph numbers <= 4, 12 only in "
-        "scalar slots) so that an accepted command builds < 10^5 clauses.  One evaluation = one real main() judged by the "
-        "outcome classifier; distinct = (tool, argument vector with scratch paths abstracted, stdin kind); trivial = the "
-        "empty argument vector.")
+        "scalar slots) so that an accepted command builds < 10^5 clauses; a CPU watchdog (SIGVTALRM, 6 s) and an address "
+        "space limit turn a command that escapes the cap into a counted non-answer instead of a verdict.  The minimal command "
+        "lines of all mechanisms reported so far and of the defects repaired earlier are replayed first (case 'witnesses').  "
+        "One evaluation = one real main() judged by the outcome classifier; distinct = (tool, argument vector with scratch "
+        "paths abstracted, stdin kind); trivial = the empty argument vector.")
 ASSUMPTIONS = [
     "the strict readers vmon/refmodels/c06_dimacs.scan_output, c12_opb.read_opb, c12_latex.read_latex_document decide "
     "'a strict reader of the chosen format accepts the output' (header counts = body, literals within the declared "
@@ -57,7 +60,12 @@ ASSUMPTIONS = [
     "class are re-executed with cliharness.spawn and must fall into the same outcome class (otherwise harness error); "
     "SyntaxWarning lines of the byte-compiler (bytecode is off) are not output of the tool",
     "non-termination and resource exhaustion are outside the classifier: numbers are capped so that every command "
-    "answers within a second; the 30-digit number is used only in slots where the unchanged tool answers at once",
+    "answers within a second, the 30-digit number is used only in slots where the tool answered at once when the check was "
+    "written, and a command that still uses up 6 s of CPU or 6 GB is counted under no_answer:* and not judged",
+    "OverflowError / RecursionError escaping a tool are keyed without the raising function (where the interpreter gives "
+    "up is incidental; the defect is the missing conversion at the command line boundary of that phase)",
+    "argument strings are handed to main() as fresh objects, as a real process gets them (argparse tells 'option given' "
+    "from 'default' by object identity)",
     "commands that consume randomness may legitimately fall into another class in the real process (graph arguments "
     "are drawn before --seed is applied); such a disagreement is counted, not reported",
 ]
@@ -71,7 +79,7 @@ REQUIRED = (["tool:cnfgen", "tool:pbgen", "tool:cnfshuffle", "tool:kthlist2pebbl
              "success:dimacs", "success:opb", "success:latex", "success:to-file", "success:to-stdout",
              "error:parse-phase", "error:after-parse", "error:marker:c", "error:marker:*", "error:marker:%",
              "error:noise-on-stdout-tolerated", "cli_exit:CLIError", "cli_exit:ValueError", "cli_exit:none",
-             "generator:grammar", "generator:mutant", "generator:help", "generator:filter", "generator:files",
+             "generator:grammar", "generator:mutant", "generator:help", "generator:filter", "generator:files", "generator:witness",
              "op:delete", "op:duplicate", "op:swap", "op:replace", "op:insert", "op:boundary-number", "op:huge-number",
              "op:graph-valid", "op:graph-mutilated", "op:missing-argument", "op:surplus-argument", "op:unknown-option",
              "op:chain-valid", "op:chain-broken", "op:hostile-global-option", "op:output-missing-directory",
@@ -130,7 +138,7 @@ FILES = {
     "kthin.cnf": ("wrong-format", None, KTH_DAG), "miscount.cnf": ("wrong-format", None, "p cnf 3 5\n1 -2 0\n"),
     "range.cnf": ("wrong-format", None, "p cnf 1 1\n1 -2 0\n"),
     "dir": ("directory", None, DIR), "dir.gml": ("directory", None, DIR), "dir.kthlist": ("directory", None, DIR),
-    "dir.cnf": ("directory", None, DIR),
+    "dir.cnf": ("directory", None, DIR), "blankline.dimacs": ("valid", "simple", "p edge 3 2\ne 1 2\n\ne 2 3\n"),
     "missing": ("missing", None, MISSING), "missing.gml": ("missing", None, MISSING), "missing.cnf": ("missing", None, MISSING),
     "missing.kthlist": ("missing", None, MISSING),
 }
@@ -268,8 +276,7 @@ class Taps:
     def __init__(self, tool):
         self.tool = tool
         self.cli_exit = None           # (type, function, phase) of the exception that left cli()
-        self.cli_exit_obj = None
-        self.parse_started = self.parse_done = False
+        self.parse_done = False
         self.help_exit = False         # the parser left through SystemExit(0/None)
         self.namespaces = []
         self.depth = 0
@@ -305,7 +312,6 @@ class Taps:
         return self
 
     def _parse(self, fn, a, kw):
-        self.parse_started = True
         self.depth += 1
         try:
             res = fn(*a, **kw)
@@ -367,6 +373,17 @@ class Observation:
     pass
 
 
+class CommandWatchdog(BaseException):
+    """Raised in the main thread when one command has used up its CPU budget (SIGVTALRM: the framework owns SIGALRM)."""
+
+
+CPU_BUDGET = 6.0          # seconds of CPU time of this process; an accepted command needs < 1 s
+
+
+def _watchdog(signum, frame):
+    raise CommandWatchdog()
+
+
 def execute(zoo, tool, argv, stdin_kind, seed):
     """One real main() in-process.  argv carries '@name' placeholders for scratch paths."""
     zoo.clean_out()
@@ -376,8 +393,18 @@ def execute(zoo, tool, argv, stdin_kind, seed):
     random.seed(seed)
     state = random.getstate()
     with Taps(tool) as taps:
-        o = run_main(tool, real, STDIN[stdin_kind])
+        signal.signal(signal.SIGVTALRM, _watchdog)
+        signal.setitimer(signal.ITIMER_VIRTUAL, CPU_BUDGET)
+        try:
+            o = run_main(tool, real, STDIN[stdin_kind])
+        finally:
+            signal.setitimer(signal.ITIMER_VIRTUAL, 0)
         ob = Observation()
+        ob.no_answer = None
+        if isinstance(o.exc, CommandWatchdog):
+            ob.no_answer = "cpu-budget"
+        elif isinstance(o.exc, MemoryError):
+            ob.no_answer = "memory-limit"
         ob.tool, ob.argv, ob.stdin = tool, list(argv), stdin_kind
         ob.rc, ob.out, ob.err = o.rc, o.out, o.err
         ob.exc = describe_exception(o.exc) if o.exc is not None else None
@@ -406,7 +433,7 @@ def execute(zoo, tool, argv, stdin_kind, seed):
 def reexecute(zoo, tool, argv, stdin_kind):
     """The same command as a real process; returns its coarse outcome class and the raw observation."""
     zoo.clean_out()
-    o = spawn(tool, zoo.render(argv), STDIN[stdin_kind], env=SPAWN_ENV, timeout=120)
+    o = spawn(tool, zoo.render(argv), STDIN[stdin_kind], env=SPAWN_ENV, timeout=90)
     return oc.coarse(o.rc, o.out, o.err, False, zoo.outputs()), o
 
 
@@ -428,15 +455,10 @@ def judge(ob):
         swallowed = ":".join((ob.cli_exit[2], "%s", ob.cli_exit[3]))
     if ob.rc == 0:
         if ob.help_exit:
-            frag = oc.formula_fragments(ob.out, comments=False)
+            # the parser left through a help / version action: "or print a help text"
             if ob.out.strip() == "":
                 return "VIOLATION", "%s:parse:help-prints-nothing" % tool, "a help action exits with status 0 and prints nothing on stdout"
-            if frag:
-                return ("VIOLATION", "%s:parse:help-contains-formula-line" % tool,
-                        "the help text contains the formula line %r" % (frag[0][2][:80],))
-            if ob.err.strip():
-                return ("VIOLATION", "%s:parse:help-writes-to-stderr" % tool, "help requested, yet stderr says %r" % ob.err[:200])
-            return "HELP", None, ""
+            return "HELP", None, "stderr-text" if ob.err.strip() else ""
         # status 0 without help: a complete formula has to be there
         fmt = ob.fmt or oc.DEFAULT_FORMAT[tool]
         if ob.cli_exit is not None:
@@ -445,10 +467,6 @@ def judge(ob):
                     % (ob.cli_exit[0], ob.cli_exit[1], len(ob.out)))
         if ob.outname is not None:
             text = ob.files.get(ob.outname, "")
-            stray = oc.formula_fragments(ob.out, comments=False)
-            if stray:
-                return ("VIOLATION", "%s:%s:formula-lines-on-stdout-although-output-file" % (tool, phase),
-                        "'-o' names a file and stdout carries %r" % (stray[0][2][:80],))
         else:
             text = ob.out
         v = oc.check_formula(fmt, text)
@@ -493,7 +511,7 @@ def expected_coarse(cls, mech):
     kind = mech.split(":")[2]
     if kind == "unhandled":
         return ("CRASH",)
-    if kind.startswith("exit-0") or kind.startswith("help-") or kind.startswith("formula-lines"):
+    if kind.startswith("exit-0") or kind.startswith("help-"):
         return ("EXIT0-NO-FORMULA", "HELP", "SUCCESS")      # status 0 is what has to be confirmed; see confirm()
     if kind == "partial-formula-before-error":
         return ("ERROR+fragment", "ERROR+fragment+silent", "ERROR+fragment+unshielded")
@@ -522,8 +540,13 @@ class Batch:
         if risky and not zoo.intact():
             zoo.restore()
             ctx.count("scratch_files_restored")
-        if ob.exc is not None and ob.exc[0] == "MemoryError":
-            raise RuntimeError("the size cap let %s %r through: MemoryError under the harness's address space limit" % (tool, argv))
+        if ob.no_answer:
+            # non-termination / resource exhaustion is outside the classifier (ASSUMPTIONS): observed, not judged
+            ctx.count("no_answer:" + ob.no_answer)
+            ctx.count("no_answer:with-30-digit-number" if HUGE in argv else "no_answer:size-cap-too-lax")
+            if not zoo.intact():
+                zoo.restore()
+            return ob, "NO-ANSWER", None
         cls, mech, msg = judge(ob)
         # accounting
         ctx.count("tool:" + tool)
@@ -546,6 +569,8 @@ class Batch:
             ctx.count("success:to-file" if ob.outname else "success:to-stdout")
             if msg:
                 ctx.count("success:with-unshielded-stderr-lines")
+        elif cls == "HELP" and msg:
+            ctx.count("help:with-text-on-stderr")
         elif cls == "CLI-ERROR":
             ctx.count("error:parse-phase" if not ob.parse_done else "error:after-parse")
             ctx.count("error:marker:" + msg)
@@ -562,7 +587,7 @@ class Batch:
                 got, o = reexecute(zoo, tool, argv, stdin_kind)
                 ctx.count("subprocess_reexecutions")
                 ok = got in want
-                if mech.split(":")[2].startswith(("exit-0", "help-", "formula-lines")):
+                if mech.split(":")[2].startswith(("exit-0", "help-")):
                     ok = o.rc == 0 and got in want
                 if not ok and ob.used_random:
                     ctx.count("subprocess_disagreement_on_random_command")
@@ -671,7 +696,7 @@ SMALL_BOUNDARY = ["-1", "0", "1", "2", "3", "1.5", "x", ""]
 # elsewhere it means an endless loop, which no classifier can judge)
 HUGE_SAFE = {"and": {0, 1}, "bphp": {0}, "cliquecoloring": {0, 2}, "count": {0, 1}, "cpls": {0, 1, 2}, "or": {0, 1},
              "parity": {0}, "pitfall": {0, 1, 2, 3, 4}, "ptn": {0}, "ram": {0, 1, 2}, "rphp": {1, 2}, "randkcnf": {0, 1},
-             "randkxor": {0, 1}, "vdw": {0, 1, 2}, "kcolor": {0}, "kcliquebin": {0}, "domset": {0}, "ramlb": {1}, "stone": {0}}
+             "randkxor": {0, 1}, "vdw": {0, 1, 2}, "kcolor": {0}, "kcliquebin": {0}, "domset": {0}, "stone": {0}}
 HUGE_VARIANTS = {"op": [["4", HUGE], [HUGE, "2"]], "php": [[HUGE], ["2", HUGE], ["3", "2", HUGE], ["3", HUGE, "2"]],
                  "tseitin": [[HUGE], ["4", HUGE]], "subsetcard": [[HUGE], ["4", HUGE]], "xorcomp": [[HUGE], ["2", HUGE]],
                  "majcomp": [["2", HUGE]]}
@@ -903,7 +928,8 @@ def gen_sub_tokens(r, table, sub, ops, files, mode, small=False, trans=False):
     return out
 
 
-WRITE_OK = ("@out/", "@nodir/")
+WRITE_OK = ("@out/o", "@nodir/")          # formula outputs are @out/o*, saved graphs @out/g* (Zoo.outputs relies on it)
+SAVE_OK = ("@out/g", "@nodir/")
 
 
 def is_output_option(t):
@@ -913,8 +939,9 @@ def is_output_option(t):
 def sanitize(tool, argv):
     """Nothing may be written outside the scratch directory: the word behind an output option or `save` is a
     scratch path (or '-' / '' / a directory of the zoo); attached forms (-oNAME, --output=NAME) are dropped."""
-    def ok(t):
-        return t.startswith(WRITE_OK) or t in ("@dir", "@out", "-", "")
+    def ok(t, prefixes=WRITE_OK):
+        # '-' is standard output for '-o', but a file of that name for `save`
+        return t.startswith(prefixes) or t in ("@dir", "@out") or (prefixes is WRITE_OK and t in ("-", ""))
     out, i = [], 0
     exact = ("-o", "-of") if tool in ("cnfgen", "pbgen") else ("-o",)
     argv = [t for t in argv if not ((t.startswith("-o") and t not in exact) or
@@ -929,9 +956,9 @@ def sanitize(tool, argv):
             if nxt in ("kthlist", "gml", "dot", "dimacs", "matrix"):
                 out.append(nxt)
                 i += 1
-                if i + 1 < len(argv) and not ok(argv[i + 1]):
+                if i + 1 < len(argv) and not ok(argv[i + 1], SAVE_OK):
                     out.append("@out/g9")
-            elif not ok(nxt):
+            elif not ok(nxt, SAVE_OK):
                 out.append("@out/g9.gml")
         i += 1
     return out
@@ -1266,11 +1293,13 @@ def help_commands():
             add(tool, [sub, "-h"])
             add(tool, [sub, "--help"])
             add(tool, ["-l", sub, "x", "-h"])
+            add(tool, [sub, "--", "-h"])              # behind the separator the switch is an argument of the sub-command
         add(tool, ["php", "-h", "-T", "xor", "2"])
     for t in sorted(T["transformation"]):
         add("cnfgen", ["php", "3", "2", "-T", t, "-h"])
         add("cnfgen", ["php", "3", "2", "-T", t, "--help"])
         add("cnfgen", ["nosuchformula", "-T", t, "-h"])
+        add("cnfgen", ["php", "3", "2", "-T", t, "--", "--help"])
         add("kthlist2pebbling", [t, "-h"], "kthlist")
         add("kthlist2pebbling", ["-q", t, "--help"])
     add("cnfgen", ["php", "3", "2", "-T", "-h"])
@@ -1358,7 +1387,8 @@ def writes_only_into_scratch(tool, argv):
         nxt = argv[i + 1] if i + 1 < len(argv) else None
         if t == "save" and nxt in ("kthlist", "gml", "dot", "dimacs", "matrix"):
             nxt = argv[i + 2] if i + 2 < len(argv) else None
-        if (is_output_option(t) or t == "save") and nxt is not None and not (nxt.startswith(WRITE_OK) or nxt in ("@dir", "@out", "-", "")):
+        if (is_output_option(t) or t == "save") and nxt is not None and \
+                not (nxt.startswith(SAVE_OK if t == "save" else WRITE_OK) or nxt in ("@dir", "@out") or (t != "save" and nxt in ("-", ""))):
             return False
     return True
 
@@ -1383,6 +1413,47 @@ def case_help(ctx, lo, hi):
 
 def case_files(ctx, lo, hi, stride, phase):
     run_batch(ctx, ("files", lo), file_commands()[lo:hi][phase::stride], 3)
+
+
+WITNESSES = [
+    # minimal command lines of the mechanisms this check has reported (kept: they have to stay clean once repaired) ...
+    ("cnfgen", ["kcolor", "2", "complete", "3", ""], "empty"),                 # empty token in a graph specification
+    ("pbgen", ["kcolor", "2", "complete", "3", ""], "empty"),
+    ("cnfgen", ["kcolor", "2", "@dir"], "empty"),                              # directory as a graph file
+    ("pbgen", ["kcolor", "2", "gml", "@dir.gml"], "empty"),
+    ("cnfgen", ["php", "2", "1", "-T", "xorcomp", "@dir"], "empty"),
+    ("cnfgen", ["pitfall", "2", "2", "1", "2", "2"], "empty"),                 # degree = number of vertices
+    ("pbgen", ["pitfall", "2", "2", "1", "2", "2"], "empty"),
+    ("cnfgen", ["pitfall", "2", "1", "1", "1", "2"], "empty"),                 # a single safety variable
+    ("pbgen", ["pitfall", "2", "1", "1", "1", "2"], "empty"),
+    ("cnfgen", ["and", HUGE, "1"], "empty"),                                   # numbers beyond the machine word
+    ("pbgen", ["and", HUGE, "1"], "empty"),
+    ("cnfgen", ["kcolor", "2", "gnp", HUGE, ".5"], "empty"),
+    ("pbgen", ["kcolor", "2", "gnp", HUGE, ".5"], "empty"),
+    ("cnfgen", ["php", "2", "1", "-T", "xor", HUGE], "empty"),
+    ("kthlist2pebbling", ["xor", HUGE], "kthlist"),
+    ("kthlist2pebbling", ["xorcomp", "complete", "2", "2", ""], "kthlist"),
+    ("kthlist2pebbling", ["xorcomp", "@dir"], "kthlist"),
+    ("cnfgen", ["php", "--", "-h"], "empty"),                                  # help of php's inner parser is empty
+    ("pbgen", ["php", "--", "-h"], "empty"),
+    ("cnfshuffle", ["--foo"], "cnf"),                                          # error messages of the two filters
+    ("cnfshuffle", [], "garbage"),
+    ("cnfshuffle", ["-i", "@bin.cnf"], "empty"),
+    ("kthlist2pebbling", ["--foo"], "kthlist"),
+    ("kthlist2pebbling", ["xorcomp", "complete", "2", "2"], "kthlist"),
+    ("kthlist2pebbling", [], "garbage"),
+    # ... and of the defects repaired before this check existed (DESIGN section 6)
+    ("cnfgen", ["vdw", "5", "1", "3"], "empty"), ("cnfgen", ["kcolor", "2", "gnd", "4", "4"], "empty"),
+    ("cnfgen", ["op", "4", "4"], "empty"), ("cnfgen", ["php", "glrm", "2", "2", "4"], "empty"),
+    ("kthlist2pebbling", [], "empty"), ("cnfgen", ["peb", "@empty.kthlist"], "empty"),
+    ("cnfgen", ["kcolor", "2", "@blankline.dimacs"], "empty"), ("cnfgen", ["--seed", "0", "randkcnf", "2", "3", "2"], "empty"),
+    ("cnfgen", ["ramlb", "2", "3", "complete", "3"], "empty"),
+]
+
+
+def case_witnesses(ctx):
+    cmds = [{"tool": t, "argv": list(a), "stdin": s, "ops": [], "files": [], "gen": "witness"} for t, a, s in WITNESSES]
+    run_batch(ctx, ("witnesses", 0), cmds, 4)
 
 
 def case_outside_git_tree(ctx):
@@ -1417,7 +1488,8 @@ def case_outside_git_tree(ctx):
 def workload(tier, seed):
     quick = tier == "quick"
     step = 150
-    n_grammar, n_mut, n_fil = (2700, 2400, 600) if quick else (45000, 45000, 9000)
+    yield "witnesses", {}          # first: the minimal command line of a mechanism becomes its replay
+    n_grammar, n_mut, n_fil = (2700, 2400, 600) if quick else (33000, 33000, 6000)
     # indices depend on the seed so that another seed is another sample
     base = seed * 1000003
     for lo in range(0, n_grammar, step):
